@@ -26,6 +26,11 @@ class SimEvent:
             self.set_log.append((s.step, s.now, 'controller'))
         self._flag = True
 
+    def force_set(self):
+        """Set from harness context (heap event / step hook): never a yield point."""
+        self.set_log.append((self._s.step, self._s.now, 'harness'))
+        self._flag = True
+
     def clear(self):
         s = self._s
         cur = s.current
